@@ -12,12 +12,14 @@ import (
 func init() {
 	register("C13", "Decides structural necessary conditions of 'submission retries follow the server's pacing and stop when they should': "+
 		"(R1) every iteration of the retry loop makes exactly one HTTP POST attempt — a call of PostAndParse, or the request itself when the transport is written out in the loop (then the clauses of R5 are decided on the loop and an unparsable 200 body must take the back-off-and-retry path there) —; the status decision table of the retry loop: 200 ⇒ the loop returns the response and body of that attempt with a nil error; 408 ⇒ another attempt without touching the back-off; 429 and 503 ⇒ back-off then another attempt; every other status (each constant the code compares with, and the default) ⇒ immediate RspError{StatusCode, Body, Err}; "+
-		"(R2) the error edge: context.Canceled / DeadlineExceeded ⇒ immediate return of that error, any other error ⇒ backoff.set(nil) and another attempt; on 429/503 the override handed to backoff.set is nil without Retry-After, seconds×time.Second for an integer, time.Until(date) for an RFC 1123 date, nil when neither parses; every way round the loop passes waitForBackoff(ctx) and its error ends the loop and is returned; "+
+		"(R2) the error edge: context.Canceled / DeadlineExceeded ⇒ immediate return of that error, any other error ⇒ backoff.set(nil) and another attempt; on 429/503 the override handed to backoff.set is nil without Retry-After, seconds×time.Second for an integer (also for one beyond int where the code tells ErrRange apart), time.Until(date) when one of the date parsers found accepts the value while the others fail (each parser in turn; a parser tried in a loop over a constant table of layouts counts once per table), nil when nothing parses; the date parsers are handed the header value and accept the IMF-fixdate form; every way round the loop passes waitForBackoff(ctx) and its error ends the loop and is returned; "+
 		"(R3) backoff.set, decided on the state it leaves at every return in each case (comparisons read as signs of linear forms over the clock, the stored instant, the override and the multiplier, however they are spelled — After/Before/Compare/Sub/Until/Since, either operand order): with an override the not-before instant becomes now+override unless the existing one is already later (never shortened, never less than Retry-After), without one it becomes now + 1s·2^(multiplier−1) of the multiplier after its step, the multiplier stepped by one only below 8 (at 8: now + 128 s, the cap), and an instant still in the future is left alone; only set/decreaseMultiplier write the shared state and every client gets a fresh zero backoff; "+
 		"(R4) waitForBackoff sleeps time.Until(until() + jitter) with jitter = rand.Intn(maxJitter in ms) milliseconds ≥ 0 (negative ⇒ 0) in a blocking select that also listens on ctx.Done() and returns ctx.Err() from it; maxJitter = 250 ms; "+
-		"(R5) PostAndParse: no nil-error return after any failing step nor when the final request method is not POST; an unparsable 200 body gives RspError with status and body (so the loop's error edge retries it); the nil-error return hands back the response and the body read from it; "+
+		"(R5) PostAndParse: no nil-error return after any failing step nor when the final request method is not POST; an unparsable 200 body gives RspError with status and body (so the loop's error edge retries it) — for every step that decodes the body, json.Unmarshal itself or a module helper built on it —; the body is decoded for status 200 only and what is decoded ends in the caller's rsp; the nil-error return hands back the response and the body read from it; "+
+		"(R8) every form of Retry-After: the override of the seconds form, evaluated as a piecewise affine function of the integer the parser returned (φ-nodes and reaching stores split by the comparisons that guard them, min/max, + − × << with constants, conversions), never wraps round and is a constant only where x seconds cannot be represented, and then the largest value that can (seconds-fit-duration: time.Duration(seconds)*time.Second fails for Retry-After: 9223372037); a number of seconds beyond the integer type (strconv: ErrRange) is not taken for an unparsable value (seconds-beyond-int); each of the three HTTP-date forms — IMF-fixdate, RFC 850, asctime (RFC 7231 7.1.1.1) — is accepted by one of the parsers whose result becomes time.Until(date): layouts (constants, or every element of a constant table that a loop walks from 0 to len−1 and leaves early only on success) are judged by what time.Parse does with sample dates of each form, net/http.ParseTime accepts all three, time.ParseInLocation only with time.UTC (date-form[imf-fixdate|rfc850|asctime]); "+
+		"(R9) what is returned was decoded from the accepted body only: no JSON decoder — which may fail after it has filled part of its target — writes into memory reached from the caller's rsp (followed through interface boxing, &rsp, reflect.ValueOf/Elem/Indirect and module helpers) unless every failure assigns the target anew before returning; a scratch value is assigned to rsp ((reflect.Value).Set) only after every decode into it succeeded, and is not older than the attempt (decoded-from-accepted-body-only: json.Unmarshal(body, &rsp) on every attempt fails — {\"data\":\"stale\",\"tree_size\":\"oops\"} then {\"tree_size\":11} returns Data:stale); "+
 		"(R7) LogClient.AddChain/AddPreChain submit through PostAndParseWithRetry with the caller's context and surface its error. "+
-		"NOT covered: elapsed wall-clock time, arithmetic overflow of absurd Retry-After values, fairness and data-race freedom among concurrent callers (the lock discipline of backoff is the central LOCK rule C13.R6), infinite response sequences (liveness), the behaviour of ctxhttp/net/http and of context implementations, which local (non-transport) errors of PostAndParse are retried.",
+		"NOT covered: elapsed wall-clock time, overflow of time.Now().Add(override) inside package time, Retry-After values that are neither delay-seconds nor one of the three HTTP-date forms (e.g. a date with a zone other than GMT is accepted or not as time.Parse decides), clamps or overflow checks written other than by comparisons with constants / min / max (a check by division is 'undecided'), nested values of a pre-filled rsp that a scratch copy shares with it (the copy is shallow), fairness and data-race freedom among concurrent callers (the lock discipline of backoff is the central LOCK rule C13.R6), infinite response sequences (liveness), the behaviour of ctxhttp/net/http and of context implementations, which local (non-transport) errors of PostAndParse are retried.",
 		runC13)
 }
 
@@ -31,7 +33,7 @@ const (
 
 func runC13(r *Run) {
 	r.Assume("ctxhttp.Do returns ctx.Err() itself once the context has ended; ctx.Err() is non-nil after ctx.Done() is closed (context contract)")
-	r.Assume("time.Now/Until/Add, rand.Intn, strconv.Atoi and time.Parse behave per their documentation; Duration arithmetic does not overflow for sane Retry-After values")
+	r.Assume("time.Now/Until/Add, rand.Intn, strconv.Atoi and time.Parse behave per their documentation (that the seconds of a Retry-After never wrap is C13.R8)")
 	r.Assume("the only implementation of jsonclient.backoffer outside tests is *jsonclient.backoff (checked: every store to JSONClient.backoff is a fresh *backoff)")
 
 	loop := r.Fn(c13Loop0)
@@ -511,12 +513,20 @@ func c13Overrides(r *Run, fn *ssa.Function, header *ssa.BasicBlock, byCode map[i
 			{"no-header", []AtomVal{{ra, "="}}, "nil"},
 			{"seconds", []AtomVal{{ra, ">"}, {atoi, "nil"}}, "seconds"},
 		}
+		// "the integer parse failed" is the case "… and not because the number is too large" where the
+		// code tells the two apart (strconv reports ErrRange and returns the nearest integer): a number
+		// of seconds beyond int is still the seconds form
+		failed := []AtomVal{{ra, ">"}, {atoi, "non"}}
+		if _, e := r.BindSigma(frame, AtomVal{c13RangeAtom, "T"}); e == nil {
+			rows = append(rows, ovCase{"seconds-beyond-int", []AtomVal{{ra, ">"}, {atoi, "non"}, {c13RangeAtom, "T"}}, "seconds"})
+			failed = append(failed, AtomVal{c13RangeAtom, "F"})
+		}
 		dcs := dateCalls(frame)
 		if len(dcs) == 0 {
 			parse := nilAtom("time.Parse(*)#1")
 			return append(rows,
-				ovCase{"http-date", []AtomVal{{ra, ">"}, {atoi, "non"}, {parse, "nil"}}, "date"},
-				ovCase{"unparsable", []AtomVal{{ra, ">"}, {atoi, "non"}, {parse, "non"}}, "nil"})
+				ovCase{"http-date", append(append([]AtomVal{}, failed...), AtomVal{parse, "nil"}), "date"},
+				ovCase{"unparsable", append(append([]AtomVal{}, failed...), AtomVal{parse, "non"}), "nil"})
 		}
 		errAtom := func(c ssa.CallInstruction) RuleAtom {
 			if ev := CallResult(c, 1); ev != nil {
@@ -524,13 +534,13 @@ func c13Overrides(r *Run, fn *ssa.Function, header *ssa.BasicBlock, byCode map[i
 			}
 			return RuleAtom{Pat: "nil?" + CalleeOf(c) + "(*)#1"} // binds nothing when the error is dropped: undecided
 		}
-		none := []AtomVal{{ra, ">"}, {atoi, "non"}}
+		none := append([]AtomVal{}, failed...)
 		names := map[string]int{}
 		for _, c := range dcs {
 			names[CalleeOf(c)]++
 		}
 		for i, c := range dcs {
-			avs := []AtomVal{{ra, ">"}, {atoi, "non"}}
+			avs := append([]AtomVal{}, failed...)
 			for j, o := range dcs {
 				if i == j {
 					avs = append(avs, AtomVal{errAtom(o), "nil"})
@@ -539,15 +549,9 @@ func c13Overrides(r *Run, fn *ssa.Function, header *ssa.BasicBlock, byCode map[i
 				}
 			}
 			// a parser tried in a loop over a non-empty constant table of layouts runs at least once
-			if H := LoopHeadOf(c.Block()); H != nil && len(H.Instrs) > 0 {
-				if ifi, isIf := H.Instrs[len(H.Instrs)-1].(*ssa.If); isIf {
-					ci := r.D.Classify(ifi.Cond)
-					it := fmt.Sprintf("it@%d", H.Index)
-					if ci.Kind == "ord" && (ci.A == it && glob("len(*)", ci.B) || ci.B == it && glob("len(*)", ci.A)) {
-						if ls, why := c13Layouts(r, CallArgs(c)[0], c); why == "" && len(ls) > 0 {
-							avs = append(avs, AtomVal{ordAtomR(it, "len(*)"), "<"})
-						}
-					}
+			if CalleeOf(c) == "time.Parse" || CalleeOf(c) == "time.ParseInLocation" {
+				if av, ok := c13TableLoopEntered(r, c); ok {
+					avs = append(avs, av)
 				}
 			}
 			name := "http-date"
